@@ -250,7 +250,9 @@ class ImplSession:
                     self.dead = True
                     run(h.connection_lost, exc)
         elif kind == "write":
-            exc = run(h.write_packets, arg, False)
+            # debug logging on for every other write call: what reaches the transport must not depend on it
+            self.n_write_calls = getattr(self, "n_write_calls", 0) + 1
+            exc = run(h.write_packets, arg, self.n_write_calls % 2 == 0)
             if exc is not None:
                 ev.append("RAISE:other:" + type(exc).__name__)
         elif kind == "lost":
